@@ -72,6 +72,7 @@ func (p *Path) smCall(sh *shardModel, method string, args ...Value) Value {
 }
 
 func init() {
+	globalModels[dbPkg+".DefaultNodeHostInfoOption"] = func(p *Path, t types.Type) Value { return p.zero(t) }
 	N := "(*" + dbPkg + ".NodeHost)."
 	reg(verifPkg+".NewNodeHost", func(p *Path, _ *frame, a []Value) Value {
 		return &NativeObj{Kind: "NodeHost", T: types.NewPointer(p.eng.namedType(dbPkg, "NodeHost")), Data: &nhModel{shards: map[uint64]*shardModel{}}}
@@ -127,6 +128,22 @@ func init() {
 		if nh.yieldAtStore {
 			p.yield()
 		}
+		if t, ok := a[idArg].(*Term); ok && t.IsConst() && nh.shards[t.K] == nil {
+			for _, r := range nh.infoShards {
+				if r != t.K {
+					continue
+				}
+				if q, ok := a[qArg].(Iface); ok && q.T != nil && q.T.String() == regattaMod+"/storage/table/fsm.PathRequest" {
+					rt := p.eng.namedType(regattaMod+"/storage/table/fsm", "PathResponse")
+					resp := p.zero(rt).(Struct)
+					p.setField(resp, rt, "Path", fmt.Sprintf("/data/t-%d", t.K))
+					cell := new(Value)
+					*cell = resp
+					return Tuple{Iface{T: types.NewPointer(rt), V: cell}, Iface{}}
+				}
+				panic(unsupported{"read on a shard registered with RunShardIDs"})
+			}
+		}
 		sh := p.nhShard(nh, a[idArg])
 		if sh == nil || sh.stopped {
 			return Tuple{Iface{}, p.sentinelError(dbPkg + ".ErrShardNotFound")}
@@ -146,17 +163,79 @@ func init() {
 	reg(N+"HasNodeInfo", func(p *Path, _ *frame, a []Value) Value { return p.ctx.F })
 	reg(N+"StartOnDiskReplica", func(p *Path, _ *frame, a []Value) Value {
 		nh := p.nhOf(a[0])
-		nh.started = append(nh.started, 0)
+		id := uint64(0)
+		if cfg, ok := a[4].(Struct); ok {
+			if t, ok := p.structField(cfg, p.eng.namedType("github.com/lni/dragonboat/v4/config", "Config"), "ShardID").(*Term); ok && t.IsConst() {
+				id = t.K
+			}
+		}
+		for _, r := range nh.infoShards {
+			if r == id && id != 0 {
+				return p.sentinelError(dbPkg + ".ErrShardAlreadyExist")
+			}
+		}
+		nh.started = append(nh.started, id)
+		if id != 0 {
+			nh.infoShards = append(nh.infoShards, id)
+		}
 		return Iface{}
+	})
+	// verif.RunShardIDs(nh, ids): shards running on this host (without a state
+	// machine of their own: reads of fsm.PathRequest are answered with a path)
+	reg(verifPkg+".RunShardIDs", func(p *Path, _ *frame, a []Value) Value {
+		nh := p.nhOf(a[0])
+		ids, _ := a[1].([]Value)
+		for _, v := range ids {
+			nh.infoShards = append(nh.infoShards, uint64(p.concreteInt(v, "RunShardIDs")))
+		}
+		return nil
+	})
+	idList := func(p *Path, ids []uint64) Value {
+		out := make([]Value, len(ids))
+		for i, id := range ids {
+			out[i] = p.ctx.BV(id, 64)
+		}
+		return out
+	}
+	reg(verifPkg+".StartedShards", func(p *Path, _ *frame, a []Value) Value { return idList(p, p.nhOf(a[0]).started) })
+	reg(verifPkg+".StoppedShards", func(p *Path, _ *frame, a []Value) Value { return idList(p, p.nhOf(a[0]).stoppedIDs) })
+	reg(N+"GetNodeHostInfo", func(p *Path, _ *frame, a []Value) Value {
+		nh := p.nhOf(a[0])
+		it := p.eng.namedType(dbPkg, "NodeHostInfo")
+		st := p.eng.namedType(dbPkg, "ShardInfo")
+		info := p.zero(it).(Struct)
+		var list []Value
+		for _, id := range nh.infoShards {
+			si := p.zero(st).(Struct)
+			p.setField(si, st, "ShardID", p.ctx.BV(id, 64))
+			list = append(list, si)
+		}
+		p.setField(info, it, "ShardInfoList", list)
+		cell := new(Value)
+		*cell = info
+		return cell
 	})
 	reg(N+"StopShard", func(p *Path, _ *frame, a []Value) Value {
 		nh := p.nhOf(a[0])
+		if t, ok := a[1].(*Term); ok && t.IsConst() && nh.shards[t.K] == nil {
+			for i, r := range nh.infoShards {
+				if r == t.K {
+					nh.infoShards = append(nh.infoShards[:i:i], nh.infoShards[i+1:]...)
+					nh.stoppedIDs = append(nh.stoppedIDs, t.K)
+					return Iface{}
+				}
+			}
+		}
 		if sh := p.nhShard(nh, a[1]); sh != nil {
 			sh.stopped = true
 			nh.stoppedIDs = append(nh.stoppedIDs, sh.id)
 			return Iface{}
 		}
 		return p.sentinelError(dbPkg + ".ErrShardNotFound")
+	})
+	// metrics are off in the model (EnableMetrics false)
+	reg(N+"NodeHostConfig", func(p *Path, _ *frame, a []Value) Value {
+		return p.zero(p.eng.namedType("github.com/lni/dragonboat/v4/config", "NodeHostConfig"))
 	})
 	reg(N+"GetLeaderID", func(p *Path, _ *frame, a []Value) Value {
 		return Tuple{p.ctx.BV(1, 64), p.ctx.BV(1, 64), p.ctx.T, Iface{}}
